@@ -89,9 +89,42 @@ def split_state(draw, spec):
     return spec
 
 
+def index_twins(draw):
+    """Two DFAs with 12-14 reachable states over {a,b} whose breadth-first numbering (alphabet in sorted order) is the same and whose transition tables differ in
+    one row only, the two rows being (1, 1x) and (11, x): written without a separator the successor numbers read the same (`110`, `111`, ...).  The DFAs are
+    not isomorphic (the breadth-first numbering is canonical).  Any representation that concatenates state indices - or names - without a separator confuses them."""
+    n = draw(st.integers(12, 14))
+    base = draw(st.integers(0, 1))            # numbering from 0 or from 1
+    rows = {}
+    last_parent = (n - 2) // 2
+    for i in range(n):
+        for j, a in enumerate("ab"):
+            child = 2 * i + 1 + j
+            rows[i, a] = child if child < n else draw(st.integers(0, n - 1))
+    x = draw(st.integers(0, n - 12))
+    k = draw(st.integers(last_parent + 1, n - 1))
+    r1, r2 = (1 - base, 10 + x - base), (11 - base, x - base)
+    if r2[1] < 0:
+        r1, r2 = (1, 10), (11, 0)
+    F = [i for i in range(n) if draw(st.booleans())]
+    def spec(row, prefix):
+        t = dict(rows)
+        t[k, "a"], t[k, "b"] = row
+        items = [["%s%d" % (prefix, p), a, "%s%d" % (prefix, q)] for (p, a), q in t.items()]
+        items = list(draw(st.permutations(items)))
+        return {"Q": ["%s%d" % (prefix, i) for i in range(n)], "S": ["a", "b"], "d": items, "q0": "%s0" % prefix, "F": ["%s%d" % (prefix, i) for i in F], "eps": None}
+    same = draw(st.integers(0, 3)) == 0
+    return spec(r1, "u"), spec(r1 if same else r2, "w")
+
+
 @st.composite
 def cases(draw, tier):
-    kind = draw(st.sampled_from(["renamed", "renamed_unreachable", "split", "mutated", "independent", "renamed", "split", "mutated", "same_object"]))
+    kind = draw(st.sampled_from(["renamed", "renamed_unreachable", "split", "mutated", "independent", "renamed", "split", "mutated", "same_object", "index_twins"]))
+    if kind == "index_twins":
+        d1, d2 = index_twins(draw)
+        if draw(st.booleans()):
+            d2 = rename(draw, d2, G.POOL)
+        return {"kind": kind, "d1": d1, "d2": d2}
     if kind == "same_object":
         base = draw(G.inflated_dfa_specs(max_states=4, max_sigma=2))
         return {"kind": kind, "d1": base, "d2": base, "same_object": True}
